@@ -280,7 +280,7 @@ ZIn(n, s, c) == LET z == Z(n, c) IN [z EXCEPT !.s = s, !.c = c]
 (***************************************************************************)
 (* Parse                                                                    *)
 (***************************************************************************)
-RECURSIVE P(_, _, _), PB(_, _, _), PStructLoop(_, _, _, _, _, _), PSeqLoop(_, _, _, _, _, _),
+RECURSIVE P(_, _, _), PB(_, _, _), PStructLoop(_, _, _, _, _, _), PSeqLoop(_, _, _, _, _, _), PLazyLoop(_, _, _, _, _, _), ActualSz(_, _, _),
           PArrayLoop(_, _, _, _, _, _, _), PGreedyLoop(_, _, _, _, _, _), PRepeatLoop(_, _, _, _, _, _),
           PSelectLoop(_, _, _, _, _), PUnionLoop(_, _, _, _, _, _, _, _), PFocusedLoop(_, _, _, _, _, _, _, _),
           NTScan(_, _, _, _, _)
@@ -391,6 +391,9 @@ PB(n, s, c) ==
                      IF hit.ok THEN ROk(hit.v, r.s, r.c, <<>>) ELSE RErr("MappingError", r.s, r.c, <<>>))
       [] n.k = "Struct" ->
             LET r == PStructLoop(n.subs, 1, s, Push(c), VEmptyDict, <<>>) IN [r EXCEPT !.c = Pop(@)]
+      [] n.k = "LazyStruct" ->   \* members are skipped by their size where it can be told, parsed (and entered in the context) otherwise
+            Then(STell(s, c), LAMBDA o :
+                LET r == PLazyLoop(n.subs, 1, o.s, Push(o.c), o.v, <<>>) IN [r EXCEPT !.c = Pop(@)])
       [] n.k = "Sequence" ->
             LET r == PSeqLoop(n.subs, 1, s, Push(c), <<>>, <<>>) IN [r EXCEPT !.c = Pop(@)]
       [] n.k = "Array" ->
@@ -587,6 +590,20 @@ PStructLoop(subs, i, s, c, obj, ev) ==
                                      IF nm # "" THEN DSet(obj, nm, r.v) ELSE obj, ev \o r.ev)
             ELSE IF r.err = "StopFieldError" THEN ROk(obj, r.s, r.c, ev \o r.ev)
             ELSE [r EXCEPT !.ev = ev \o @]
+PLazyLoop(subs, i, s, c, off, ev) ==
+    IF i > Len(subs) THEN ROk([t |-> "opaque", r |-> "LazyContainer"], s, c, ev)
+    ELSE LET a == ActualSz(subs[i], s, c) IN
+         IF a.ok THEN LET k == SSeek(a.s, c, off + a.v, 0) IN
+                      IF ~k.ok THEN [k EXCEPT !.ev = ev \o a.ev] ELSE PLazyLoop(subs, i + 1, k.s, c, off + a.v, ev \o a.ev)
+         ELSE IF a.err # "SizeofError" THEN [a EXCEPT !.c = c, !.ev = ev \o @]
+         ELSE LET k == SSeek(a.s, c, off, 0) IN
+              IF ~k.ok THEN [k EXCEPT !.ev = ev \o a.ev]
+              ELSE LET r == P(subs[i], k.s, c)
+                       nm == NameOf(subs[i])
+                   IN IF ~r.ok THEN [r EXCEPT !.ev = ev \o a.ev \o @]
+                      ELSE LET t == STell(r.s, r.c) IN
+                           IF ~t.ok THEN [t EXCEPT !.ev = ev \o a.ev \o r.ev]
+                           ELSE PLazyLoop(subs, i + 1, t.s, IF nm # "" THEN SetCur(r.c, nm, r.v) ELSE r.c, t.v, ev \o a.ev \o r.ev)
 PSeqLoop(subs, i, s, c, xs, ev) ==
     IF i > Len(subs) THEN ROk(VList(xs), s, c, ev)
     ELSE LET r == P(subs[i], s, c)
@@ -805,7 +822,7 @@ BB(n, obj, s, c) ==
             ELSE LET hit == IF Hashable(obj) THEN LookupLast(n.mk, n.mv, obj) ELSE [ok |-> FALSE, v |-> VNone] IN
                  IF ~hit.ok THEN RErr("MappingError", s, c, <<>>)
                  ELSE Then(B(n.sub, hit.v, s, c), LAMBDA r : ROk(obj, r.s, r.c, <<>>))
-      [] n.k = "Struct" ->
+      [] n.k \in {"Struct", "LazyStruct"} ->
             LET o == IF obj.t = "none" THEN VEmptyDict ELSE obj IN
             IF o.t # "dict" THEN RErr(TypeErrOr(o), s, c, <<>>)
             ELSE LET c1 == Push(c)
